@@ -51,7 +51,7 @@ CHECKS = {
         ref="5 C09"),
     "C10": dict(
         technique="runtime monitoring: emitted tokens judged by the reference symbol grammar, decode + re-encode fixpoint, paired spellings from two PRNG streams",
-        text="held on every accepted SMILES of the run: extreme atoms (118 elements, charges to +-101, isotopes to 1000, H to 9, zero-padded numbers), index lengths 1-3, every symbol family, aromatic systems under tight tables, first sight of a symbol under another table; emitted tokens judged by the reference grammar, decode + re-encode fixpoint.",
+        text="held on every accepted SMILES of the run: extreme atoms (118 elements, charges to +-101, isotopes to 1000, H to 9, zero-padded numbers), index lengths 1-3, every symbol family, aromatic systems under tight tables, first sight of a symbol under another table; emitted tokens judged by the reference grammar, decode + re-encode fixpoint, questionable ring closures, molecules with >= 100 rings. Known finding F1 (fixpoint fails once the decoder has to write ring label 100).",
         ref="5 C10"),
     "C11": dict(
         technique="runtime monitoring: API histories; each final translation compared with the reference derivation under the reported table and with a fresh interpreter forked from an untouched zygote, hash seeds 0-4",
